@@ -33,16 +33,31 @@ RULE = ("dedicated clock cases: every period in {1,2,3,7,10,1000,999983} x {1,2,
         "scripts of <= 25 operations set/get/tick/tick.sample/delay/posedge/negedge/changed/until/repeat/trigger "
         "combinations; split-signal scenarios: one bus / register whose slices are owned by 2-3 comb fragments, by 2-3 clock "
         "domains with coincident edges, or by a comb and a sync process, the whole signal read after every set/tick. "
-        "testbench-order scenarios: 3-5 testbenches setting and reading shared signals in the same time steps. "
+        "testbench-order scenarios: 3-5 testbenches setting and reading shared signals in the same time steps; "
+        "every second random scenario enriched with asynchronous-reset domains (reset asserted/released between edges), "
+        "domains declared inside submodules, ClockSignal/ResetSignal leaves, times in other units, `async for` over a tick; "
+        "memory scenarios: lib.memory.Memory with 1-2 write ports (granularity, one or two domains), comb and transparent "
+        "sync read ports, rows read/written by testbenches, incl. two ports writing different rows in one delta with the "
+        "comb read data read right after the edge; misc scenarios: background testbenches + ctx.critical(), run_until, "
+        "user processes looping over edges / periodic delays / several triggers with 1-2 outputs, clocks given as "
+        "frequencies (kHz/MHz/GHz) and ns/ps/us. The design is compiled under the permuted orders too; sets of <= 4 "
+        "elements go through all their permutations as k grows; the model is evaluated under ascending, descending and "
+        "alternating orders (-554/-553 when they differ). "
         "Every scenario runs under k orders (quick 6, thorough 40) of all engine sets. "
         "non-trivial = some testbench record carries a value that differs from the signal's init or a non-zero time; "
         "distinct by case hash")
 MODELLED = ("PySimEngine.step_design/advance, _PyEngineState.commit, _PySignalState.update/commit, _PyTriggerState, "
             "_PyTimeline, PyClockProcess, PyRTLProcess wakers, AsyncProcess.run (first-await rule), TestbenchContext.set/get, "
             "TickTrigger await/until/repeat, TriggerCombination one-shot awaits, Period/2 default phase are modelled in "
-            "coq/Model/Engine.v (RTL statement semantics reused from Stmt.v/Process.v); validated only: coroutine mechanics "
+            "coq/Model/Engine.v (RTL statement semantics reused from Stmt.v/Process.v), as are memories (rows = slots; "
+            "mem_comb/mem_sync processes), asynchronous-reset processes (rtl_sync_arst), tick()/until() lowering "
+            "(tick_spec), Period units (period_fs), background testbenches/critical()/async for/run_until; the regenerated "
+            "_PySignalState/_PyTimeline/commit/step_design/advance are proved equal to the model (translator unit pysim); "
+            "validated only: coroutine mechanics "
             "(send, async generators, asyncgen hooks), Fragment elaboration, the compiled Python of _pyrtl. Abstractions: "
-            "memories are not modelled (order comparison only, in extra()); a broken trigger object is the canonical dead "
+            "a memory's commit wakes its comb read ports even when no row changed (the model wakes them only on a change; "
+            "a re-run of a comb process is idempotent); memory ports in asynchronous-reset domains and user sync processes "
+            "in them are not generated; cross-domain same-row write collisions only in extra() (S1); a broken trigger object is the canonical dead "
             "trigger; stale timeline entries of abandoned trigger objects are dropped when the owner awaits again (they only "
             "cause empty advance() calls, so the loop is stopped by time, not by count)")
 ASSUMPTIONS = ["write_disjoint: no two processes write a common signal bit in one delta; proved (C08_compiled_write_disjoint) "
@@ -918,11 +933,6 @@ def _enrich(case, rng):
     """audit follow-up: asynchronous-reset domains, domains declared inside submodules, ClockSignal / ResetSignal leaves,
     times written in other units, `async for` over a tick"""
     sync_up_doms = {up["dom"] for up in case["uprocs"] if up["k"] == "sync"}
-    for d, dom in enumerate(case["doms"]):
-        if dom["rst"] is not None and d not in sync_up_doms and rng.random() < 0.45:
-            dom["async"] = True
-        if rng.random() < 0.4:
-            dom["where"] = rng.randrange(len(case["mods"]))
     if rng.random() < 0.5:
         case["clk_leaf"] = True
         ctl = [dom["clk"] for dom in case["doms"]] + [dom["rst"] for dom in case["doms"] if dom["rst"] is not None]
@@ -933,6 +943,41 @@ def _enrich(case, rng):
             for ent in md["sync"]:
                 if rng.random() < 0.3:
                     ent[2] = ["o2", rng.choice(("^", "+", "|")), ent[2], ["s", rng.choice(ctl)]]
+
+    def chain(k):
+        out = []
+        while k is not None:
+            out.append(k)
+            k = case["mods"][k]["parent"]
+        return out
+    for d, dom in enumerate(case["doms"]):
+        if dom["rst"] is not None and d not in sync_up_doms and rng.random() < 0.45:
+            dom["async"] = True
+        if rng.random() < 0.5 and d not in sync_up_doms:
+            # domains only propagate DOWN the hierarchy: declare the domain in a submodule that contains all its users
+            # (modules with statements in it, or naming its clock / reset through ClockSignal / ResetSignal)
+            ctl_d = {dom["clk"], dom["rst"]}
+            users = []
+            for k, md in enumerate(case["mods"]):
+                terms = [e[1] for e in md["comb"]] + [e[2] for e in md["sync"]] + [e[3] for e in md["sync"] if e[3]]
+                if any(e[0] == d for e in md["sync"]) or \
+                        (case.get("clk_leaf") and any(ctl_d & set(G.sig_ids(t)) for t in terms)):
+                    users.append(k)
+            common = None
+            for k in users:
+                common = chain(k) if common is None else [x for x in common if x in chain(k)]
+            cands = list(range(len(case["mods"]))) if common is None else common
+            if cands:
+                dom["where"] = rng.choice(cands)
+    for d, dom in enumerate(case["doms"]):
+        if dom.get("async"):
+            # assert and release the asynchronous reset between clock edges, with reads right after
+            regs_d = [e[1] for md in case["mods"] for e in md["sync"] if e[0] == d and isinstance(e[1], int)]
+            script = rng.choice(case["tbs"])
+            for v in (1, 0) if rng.random() < 0.7 else (1,):
+                pos = rng.randrange(len(script) + 1)
+                ins_ = [["set", dom["rst"], v]] + [["get", r_] for r_ in regs_d[:2]]
+                script[pos:pos] = ins_
     if rng.random() < 0.4:
         case["units"] = True
     for script in case["tbs"]:
